@@ -18,6 +18,7 @@ from .c06 import make_filter, UNU
 from .fitworld import frac
 
 GX = [2, 4, 6, 8, 12, 14, 16, 20]
+GX2 = [2, 4, 8, 10, 12, 16, 18, 20]
 FILTERS = [([3, 5, 6], [0, 2, 1]), ([10, 13, 17, 22], [1, 3, 3, 0])]
 NAMES = {1: 'mdl_a', 2: 'mdl_b', 3: 'mdl_c', 4: 'mdl_d'}
 APS = [500.0, 4000.0]
@@ -39,10 +40,20 @@ def build(d, b):
         ids = b['tab']
         names = [NAMES[i] for i in ids]
         pos = {m: k for k, m in enumerate(b['list'])}
-        fnames = ['f%d_%s' % (pos[i], NAMES[i]) for i in ids]
-        stored = [b['stored'][i - 1] for i in ids]
-        pw.build_perfile(d, names, wav, aps, lambda m, a, w: float(Fl(ids[m], a + 1, ng - w)), lambda m, a, w: float(Er(ids[m], a + 1, ng - w)),
-                         stored=stored, fnames=fnames, writer=('lib' if sum(ids) % 2 else 'raw'), aperture_dependent=(b['na'] > 1))
+        os.makedirs(os.path.join(d, 'seds'))
+        fw.write_conf(d, aperture_dependent=(b['na'] > 1))
+        for m, i in enumerate(ids):
+            gx = GX2 if b['gsel'][i - 1] == 2 else GX            # every SED file may come on its own frequency grid
+            wav_m = sorted(12.0 / g for g in gx)
+            order = b['stored'][i - 1]
+            p = os.path.join(d, 'seds', 'f%d_%s_sed.fits' % (pos[i], NAMES[i]))
+            vf = lambda a, w, i=i: float(Fl(i, a + 1, ng - w))
+            ve = lambda a, w, i=i: float(Er(i, a + 1, ng - w))
+            if sum(ids) % 2:
+                pw.sed_object(NAMES[i], wav_m, aps, vf, ve, order).write(p)
+            else:
+                pw.write_sed_raw(p, NAMES[i], wav_m, aps, vf, ve, order, legacy_units=False)
+        pw.write_parameters(d, names)
     else:
         ids = b['list']
         # the cube may store its fluxes in Jy instead of mJy (values scaled accordingly: same physical SEDs)
@@ -100,7 +111,7 @@ def fit_all(d, na, memmap):
     return {str(n).strip(): (float(a), float(sc), float(c)) for n, a, sc, c in zip(info.model_name, info.av, info.sc, info.chi2)}
 
 
-def replay_chunk(items, root, seed):
+def replay_chunk(items, root, seed, pid='C07', fits=True):
     from astropy import units as u
     from sedfitter.convolve import convolve_model_dir
     from sedfitter.convolved_fluxes import ConvolvedFluxes
@@ -108,7 +119,7 @@ def replay_chunk(items, root, seed):
     refs = {}
     for bi, b in items:
         d = tempfile.mkdtemp(dir=root)
-        desc = {'behaviour': {k: b[k] for k in ('tab', 'list', 'stored', 'fmt', 'na')}}
+        desc = {'behaviour': {k: b[k] for k in ('tab', 'list', 'stored', 'fmt', 'na', 'gsel')}}
         try:
             build(d, b)
             try:
@@ -128,7 +139,7 @@ def replay_chunk(items, root, seed):
                     raise
             col.replayed += 1
             if refused != b['refused']:
-                col.violation('C07:cube_refusal', 'cube order %r, table order %r: %s, spec says %s' % (b['list'], b['tab'], 'refused' if refused else 'convolved',
+                col.violation('%s:cube_refusal' % pid, 'cube order %r, table order %r: %s, spec says %s' % (b['list'], b['tab'], 'refused' if refused else 'convolved',
                                                                                                      'refuse' if b['refused'] else 'convolve'), desc)
                 continue
             if refused:
@@ -166,33 +177,47 @@ def replay_chunk(items, root, seed):
                 if bad:
                     break
             if bad:
-                col.violation('C07:%s:%s' % (b['fmt'], bad[0]), '%s package, table order %r, listing/cube order %r, stored %r, %d aperture(s): %s'
-                              % (b['fmt'], b['tab'], b['list'], b['stored'], b['na'], bad[1]), desc)
+                col.violation('%s:%s:%s' % (pid, b['fmt'], bad[0]), '%s package, table order %r, listing/cube order %r, stored %r, grids %r, %d aperture(s): %s'
+                              % (b['fmt'], b['tab'], b['list'], b['stored'], b['gsel'], b['na'], bad[1]), desc)
                 continue
             # fits from either format, memory-mapped or not, agree
-            for memmap in (False, True):
+            for memmap in ((False, True) if fits else ()):
                 got = fit_all(d, b['na'], memmap)
                 col.replayed += 1
-                key = b['na']
+                key = (b['na'], tuple(b['gsel']) if b['fmt'] == 'perfile' else (1, 1, 1))
                 if key not in refs:
                     refs[key] = got
                 ref = refs[key]
                 if set(got) != set(ref) or any(not (fw.fclose(got[n][i], ref[n][i], 2e-5 if memmap else 1e-7, 1e-6) or
                                                     (np.isnan(got[n][i]) and np.isnan(ref[n][i]))) for n in ref for i in range(3)):
-                    col.violation('C07:fits_disagree:%s' % ('memmap' if memmap else 'plain'),
+                    col.violation('%s:fits_disagree:%s' % (pid, 'memmap' if memmap else 'plain'),
                                   'fits from this %s package (memmap=%s) differ from another variant of the same SEDs: %r vs %r' % (b['fmt'], memmap, got, ref), desc)
                     break
         except Exception as e:
-            col.violation('C07:raised:%s:%s' % (b['fmt'], type(e).__name__), '%s package (table %r, order %r, stored %r, na %d): %r' % (b['fmt'], b['tab'], b['list'], b['stored'], b['na'], e), desc)
+            col.violation('%s:raised:%s:%s' % (pid, b['fmt'], type(e).__name__), '%s package (table %r, order %r, stored %r, na %d): %r' % (b['fmt'], b['tab'], b['list'], b['stored'], b['na'], e), desc)
         finally:
             shutil.rmtree(d, ignore_errors=True)
     return col
 
 
+def stage(ctx, pid, mod):
+    """the end-to-end half of C06 (flux = sum F R, errors in quadrature, SEDs on their own grids) for another check"""
+    cfg = ctx.tmp('pk_%s.cfg' % pid)
+    with open(cfg, 'w') as f:
+        f.write('SPECIFICATION Spec\nCONSTANTS\n  NM = 3\n  SampleMod = %d\n  SampleRes = %d\nINVARIANT RowsLabelledRight\nINVARIANT OrderFollowsTable\n'
+                'INVARIANT CubeRefusesMismatch\nINVARIANT EmitInv\nCHECK_DEADLOCK FALSE\n' % (mod, ctx.seed % mod))
+    res = model_check(ctx, 'Package', cfg, timeout=1800, coverage=False)
+    em = [b for b in res['emitted'] if isinstance(b, dict) and 'tab' in b and not b['refused']]
+    root = ctx.mkdtemp('pkg_%s' % pid)
+    for col in pmap(lambda c: replay_chunk(c, root, ctx.seed, pid=pid, fits=False), list(enumerate(em))):
+        col.merge_into(ctx)
+    ctx.notes['end_to_end_packages'] = len(em)
+
+
 def run(ctx):
     q = not ctx.thorough
     cfg = ctx.tmp('pk.cfg')
-    mod = 6 if q else 1
+    mod = 18 if q else 3
     with open(cfg, 'w') as f:
         f.write('SPECIFICATION Spec\nCONSTANTS\n  NM = 3\n  SampleMod = %d\n  SampleRes = %d\nINVARIANT RowsLabelledRight\nINVARIANT OrderFollowsTable\n'
                 'INVARIANT CubeRefusesMismatch\nINVARIANT CellsDistinct\nINVARIANT EmitInv\nCHECK_DEADLOCK FALSE\n' % (mod, ctx.seed % mod))
@@ -200,10 +225,10 @@ def run(ctx):
     em = [b for b in res['emitted'] if isinstance(b, dict) and 'tab' in b]
     if not em:
         raise MachineryError('no behaviours emitted')
-    ctx.notes['mc_constants'] = '3 models: 6 table orders x 6 listing/cube orders x 2^3 stored spectral orders x {per-file, cube} x {1, 2} apertures; 2 filters, 8-node SED grid'
+    ctx.notes['mc_constants'] = '3 models: 6 table orders x 6 listing/cube orders x 2^3 stored spectral orders x {per-file, cube} x {1, 2} apertures x 3 assignments of two 8-node SED grids to the models; 2 filters'
     ctx.notes['behaviours_emitted'] = len(em)
     ctx.notes['exhaustive'] = True
-    ctx.sample({'behaviour': {k: em[0][k] for k in ('tab', 'list', 'stored', 'fmt', 'na', 'refused')}})
+    ctx.sample({'behaviour': {k: em[0][k] for k in ('tab', 'list', 'stored', 'fmt', 'na', 'gsel', 'refused')}})
     root = ctx.mkdtemp('pkg')
     for col in pmap(lambda c: replay_chunk(c, root, ctx.seed), list(enumerate(em))):
         col.merge_into(ctx)
